@@ -407,7 +407,11 @@ impl Chitchat {
         for key in previous_keys {
             node_state.remove_key_value_internal(&key);
         }
-        node_state.set_last_gc_version(last_gc_version);
+        // Adopt the frontier of the fetched state. The fetched max version is strictly greater
+        // than ours (checked above) but is not necessarily carried by a key-value (e.g. if the
+        // latest tombstones were garbage collected). The GC watermark must never move backward.
+        node_state.set_max_version(max_version.max(node_state.max_version()));
+        node_state.set_last_gc_version(last_gc_version.max(node_state.last_gc_version()));
 
         let monotonic_property_after = node_state.monotonic_property();
 
